@@ -917,7 +917,6 @@ class FedSim(object):
             doc = srv._encrypt_assertion(None, ra["sp_entity_id"], doc, node_xpath=xp)
             resp = response_from_string(doc)
             a = resp.assertion[0] if isinstance(resp.assertion, list) else resp.assertion
-            enc = False
         if not (sign_r or sign_a or enc):
             return resp
         if sign_a:
